@@ -163,18 +163,22 @@ Proof.
   unfold lookup_channel, lookup_user.
   destruct (alookup (fold chan_name) (st_channels s2)) as [c|] eqn:Ec.
   2:{ exfalso. unfold s2 in Ec. rewrite create_user_same_channels in Ec. apply (create_channel_some s chan_name). exact Ec. }
-  destruct (alookup (fold (s_name src)) (st_users s2)) as [u|] eqn:Eu.
+  destruct (alookup (fold (s_name src)) (st_users s2)) as [uf|] eqn:Eu.
   2:{ exfalso. apply (create_user_some s1 src). exact Eu. }
+  cbv zeta.
+  match goal with |- context [channel_add_user c (u_nick ?U)] => set (u := U) end.
+  assert (U0 : u_nick u = u_nick uf /\ u_chans u = u_chans uf) by (unfold u; destruct (_ && _); split; reflexivity).
+  destruct U0 as [U0n U0c].
   match goal with |- context [aset (fold (s_name src)) ?U (st_users s2)] => set (u2 := U) end.
   set (c' := channel_add_user c (u_nick u)).
   assert (Hck : fold (c_name c) = fold chan_name) by apply (inv_ckey I2 _ _ Ec).
-  assert (Huk : fold (u_nick u) = fold (s_name src)) by apply (inv_ukey I2 _ _ Eu).
-  assert (U2 : u_nick u2 = u_nick u /\ u_chans u2 = add_sorted (fold chan_name) (u_chans u)).
-  { rewrite <- Hck. unfold u2. destruct rest as [|acct [|nm r2]]; [|destruct (streqb acct [42])..];
+  assert (Huk : fold (u_nick u) = fold (s_name src)) by (rewrite U0n; apply (inv_ukey I2 _ _ Eu)).
+  assert (U2 : u_nick u2 = u_nick uf /\ u_chans u2 = add_sorted (fold chan_name) (u_chans uf)).
+  { rewrite <- Hck, <- U0n, <- U0c. unfold u2. destruct (e_account_tag e); (destruct rest as [|acct [|nm r2]]; [|destruct (streqb acct [42])..]);
       cbn [u_nick u_chans u_set_account u_set_name]; (split; [apply user_add_channel_nick|apply user_add_channel_chans]). }
   destruct U2 as [U2n U2c].
   assert (I3 : Inv (set_users (set_channels s2 (aset (fold chan_name) c' (st_channels s2))) (aset (fold (s_name src)) u2 (st_users s2)))).
-  { eapply invx_weaken; [|eapply (link_inv _ s2 (fold chan_name) (fold (s_name src)) c u c' u2 I2 Ec Eu)].
+  { eapply invx_weaken; [|eapply (link_inv _ s2 (fold chan_name) (fold (s_name src)) c uf c' u2 I2 Ec Eu)].
     - cbv beta. intros k [[[]|H1] H2]. contradiction.
     - unfold c'. rewrite channel_add_user_name. reflexivity.
     - unfold c'. rewrite channel_add_user_users, Huk. reflexivity.
@@ -423,4 +427,23 @@ Proof.
   destruct (all_histories ex_cfg ex_history) as (s & o & H & I).
   exists s, o. split; [exact H|]. split; [exact I|].
   vm_compute in H. injection H as <- <-. vm_compute. split; reflexivity.
+Qed.
+
+(* ---- the liveness half, as far as a sequential model can say it: in every state a PING is
+   answered with the PONG of its last parameter, so in particular after every history ---- *)
+
+Definition ping_event (src : option source) (tag : option str) (ps : list str) : event :=
+  mkEvent src tag (bs "PING") ps.
+
+Lemma ping_answered cfg s src tag ps :
+  handle cfg s (ping_event src tag ps) = Ok (handle_tags s (ping_event src tag ps), [OutSend s_PONG [last ps []]]).
+Proof. reflexivity. Qed.
+
+Theorem ping_after_every_history cfg h src tag ps :
+  exists s out s', run cfg state_init h = Ok (s, out) /\ Inv s /\
+    handle cfg s (ping_event src tag ps) = Ok (s', [OutSend s_PONG [last ps []]]) /\ Inv s'.
+Proof.
+  destruct (all_histories cfg h) as (s & out & Hrun & I).
+  exists s, out, (handle_tags s (ping_event src tag ps)). split; [exact Hrun|]. split; [exact I|].
+  split; [apply ping_answered|]. eapply same_struct_inv; [apply handle_tags_same|exact I].
 Qed.
